@@ -13,6 +13,7 @@ import (
 	"verif/h/corpus"
 	"verif/h/hx"
 	"verif/h/lx"
+	"verif/h/mut"
 )
 
 func TestMain(m *testing.M) { hx.Main(m, "C19", nil) }
@@ -181,6 +182,80 @@ func TestRandomModulesAndOffsets(t *testing.T) {
 			hx.NonTrivial(fmt.Sprintf("%d/%d/%d/%v", seed, size, k, rec))
 		}
 		hx.SampleCase(test, fmt.Sprintf("llvm-stress -seed %d -size %d: len(String())=%d", seed, size, len(want)))
+	})
+}
+
+func TestClangCorpus(t *testing.T) {
+	const test = "ClangCorpus"
+	hx.Rule(test, "clang-14 output for corpus/src x corpus.ClangVariants (see C01), parsed, x failure offsets: every line boundary +-1 and every 97th byte (quick: every 5th line boundary and every 997th byte) x writer modes; same oracle")
+	n := 0
+	for i, c := range corpus.ClangCases() {
+		if !hx.Mine(i) {
+			continue
+		}
+		x := c.Text()
+		if x == "" {
+			hx.Discard("clang_rejects_combination")
+			continue
+		}
+		m, want := parse(t, x)
+		if m == nil {
+			hx.Discard("clang_module_not_parsed")
+			continue
+		}
+		src := "clang-14 " + c.Name()
+		checkWrite(t, test, src, m, want, -1, false)
+		step, lstep := 97, 1
+		if !hx.Thorough() {
+			step, lstep = 997, 5
+		}
+		ks := map[int]bool{0: true, len(want): true}
+		ln := 0
+		for k := 0; k < len(want); k++ {
+			if k%step == 0 {
+				ks[k] = true
+			}
+			if want[k] == '\n' {
+				if ln%lstep == 0 {
+					ks[k], ks[k+1] = true, true
+				}
+				ln++
+			}
+		}
+		for k := range ks {
+			for _, rec := range []bool{false, true} {
+				checkWrite(t, test, src, m, want, k, rec)
+				n++
+			}
+			hx.NonTrivialU(uint64(1000+i), uint64(k))
+		}
+	}
+	hx.Eval(n)
+}
+
+func TestMutatedCorpus(t *testing.T) {
+	const test = "MutatedCorpus"
+	hx.Rule(test, "repository testdata and llvm-stress programs changed by 1..3 drawn text mutations (h/mut), kept when llvm-as and the parser accept them, x 40 drawn failure offsets x writer modes; same oracle")
+	hx.Check(t, test, hx.N(20, 800), func(rt *rapid.T) {
+		src, _, ok := mut.Valid(rt)
+		if !ok {
+			hx.Discard("mutated_text_not_valid_or_not_accepted")
+			return
+		}
+		m, want := parse(rt, src)
+		if m == nil {
+			hx.Discard("mutated_program_not_parsed_or_printed")
+			return
+		}
+		hx.Eval(1)
+		checkWrite(rt, test, src, m, want, -1, false)
+		for i := 0; i < 40; i++ {
+			k := rapid.IntRange(0, len(want)).Draw(rt, "k")
+			rec := rapid.Bool().Draw(rt, "recover")
+			checkWrite(rt, test, src, m, want, k, rec)
+			hx.Eval(1)
+			hx.NonTrivial(fmt.Sprintf("mut/%x/%d/%v", hx.Hash64(src), k, rec))
+		}
 	})
 }
 
